@@ -88,7 +88,9 @@ Proof.
   unfold step in Hs.
   destruct (t_pc (ts s t)) eqn:Hpc.
   - (* Idle *) destruct (t_todo (ts s t)) as [|o rest]; [discriminate|].
-    destruct (o_code o).
+    destruct (o_code o) as [|[|[|k]]].
+    + injection Hs as <-. pframe HI t Hpc. plk HI t Hpc.
+    + destruct (t_held (ts s t)) as [|r h'] eqn:Hh; injection Hs as <-; pframe HI t Hpc; try (rewrite Hh; reflexivity); plk HI t Hpc.
     + injection Hs as <-. pframe HI t Hpc. plk HI t Hpc.
     + destruct (t_held (ts s t)) as [|r h'] eqn:Hh; injection Hs as <-; pframe HI t Hpc; try (rewrite Hh; reflexivity); plk HI t Hpc.
   - (* GLock *) destruct (lock s) eqn:Hl; [discriminate|]. injection Hs as <-. pframe HI t Hpc. plk HI t Hpc.
@@ -165,6 +167,7 @@ Proof.
   - (* GRelock *) destruct (lock s) eqn:Hl; [discriminate|]. injection Hs as <-. pframe HI t Hpc. plk HI t Hpc.
   - (* GRet *) injection Hs as <-. pframe HI t Hpc. plk HI t Hpc.
   - (* GPanic *) injection Hs as <-. pframe HI t Hpc. plk HI t Hpc.
+  - (* PNil *) injection Hs as <-. pframe HI t Hpc. plk HI t Hpc.
   - (* PLock *) destruct (lock s) eqn:Hl; [discriminate|]. injection Hs as <-. pframe HI t Hpc. plk HI t Hpc.
   - (* PPush *) injection Hs as <-.
     pose proof HI as [L1 L2 (C1 & C2 & C3 & C4) H Hd N1 N2 F].
@@ -262,8 +265,8 @@ Proof.
   intros HI Hs Hl. destruct HI as [_ _ _ Hh Hd _ _ F].
   destruct l as [t|g|d]; [| injection Hs as <-; assumption | injection Hs as <-; assumption ].
   unfold step in Hs. destruct (t_pc (ts s t)) eqn:Hpc.
-  - destruct (t_todo (ts s t)) as [|o rest]; [discriminate|]. destruct (o_code o); [injection Hs as <-; assumption|].
-    destruct (t_held (ts s t)); injection Hs as <-; assumption.
+  - destruct (t_todo (ts s t)) as [|o rest]; [discriminate|]. destruct (o_code o) as [|[|[|k]]]; try (injection Hs as <-; assumption);
+      (destruct (t_held (ts s t)); injection Hs as <-; assumption).
   - destruct (lock s); [discriminate|]. injection Hs as <-; assumption.
   - destruct (head s) as [|[r' lu] rest] eqn:Hhead.
     + destruct (Z.ltb (created s) limit); injection Hs as <-; assumption.
@@ -274,6 +277,7 @@ Proof.
     rewrite upd_other; [assumption|]. intro; subst r. rewrite F in Hl by lia. discriminate.
   - destruct (existsb (Nat.eqb t) (waiters s)); [discriminate|]. injection Hs as <-; assumption.
   - destruct (lock s); [discriminate|]. injection Hs as <-; assumption.
+  - injection Hs as <-; assumption.
   - injection Hs as <-; assumption.
   - injection Hs as <-; assumption.
   - destruct (lock s); [discriminate|]. injection Hs as <-; assumption.
@@ -298,4 +302,12 @@ Proof.
   - intros t A. specialize (C4 t A). lia.
   - intros t u A B. assert (lock (run (step limit maxage) sched (init scripts)) = Some t) by (apply L1; rewrite A; reflexivity).
     assert (lock (run (step limit maxage) sched (init scripts)) = Some u) by (apply L1; rewrite B; reflexivity). congruence.
+Qed.
+
+(* Put(nil) gives nothing back: the state of the pool is untouched, in particular p.created *)
+Lemma pool_put_nil_noop limit maxage s t : t_pc (ts s t) = PNil ->
+  exists s', step limit maxage (Thr t) s = Some s' /\ created s' = created s /\ head s' = head s /\
+             waiters s' = waiters s /\ lock s' = lock s /\ t_pc (ts s' t) = Idle /\ t_held (ts s' t) = t_held (ts s t).
+Proof.
+  intro Hpc. unfold step. rewrite Hpc. eexists. split; [reflexivity|]. cbn [created head waiters lock ts]. rewrite upd_same. auto 10.
 Qed.
